@@ -103,7 +103,8 @@ StrOps(s) ==
    \cup {Op("clear", 0, 0), Op("size", 0, 0), Op("empty", 0, 0)}
    \cup {OpS("push_back", 0, <<c>>) : c \in Chars}
    \cup {OpS("append", 0, sub) : sub \in {<<>>, <<"a", "b">>}}
-   \cup {Op("substr", p, l) : p \in PosClasses(Len(s)), l \in {0, 1, Huge}}
+   \* -1 is the size_type maximum (npos): as a length it is the "to the end" idiom and pos + len wraps around; as a position it is beyond any size
+   \cup {Op("substr", p, l) : p \in PosClasses(Len(s)) \cup {-1}, l \in {0, 1, Huge, -1, -2}}
    \cup {OpS(f, p, sub) : f \in {"find", "rfind", "find_first_of", "find_last_of", "find_first_not_of", "find_last_not_of"},
                           p \in PosClasses(Len(s)), sub \in Subs}
    \cup {Op("insert_at", i, 0) : i \in IdxClasses(Len(s))}
@@ -117,8 +118,8 @@ ApplyStr(s, op) ==
     [] op.n = "empty"     -> [res |-> BoolR(n = 0), st |-> s]
     [] op.n = "push_back" -> [res |-> Void, st |-> s \o op.s]
     [] op.n = "append"    -> [res |-> StrR(s \o op.s), st |-> s \o op.s]       \* s += t returns the string
-    [] op.n = "substr"    -> (IF op.a > n THEN [res |-> Throw, st |-> s]
-                              ELSE [res |-> StrR(SubSeq(s, op.a + 1, Min2(n, op.a + op.b))), st |-> s])
+    [] op.n = "substr"    -> (IF op.a < 0 \/ op.a > n THEN [res |-> Throw, st |-> s]
+                              ELSE [res |-> StrR(SubSeq(s, op.a + 1, IF op.b < 0 THEN n ELSE Min2(n, op.a + op.b))), st |-> s])
     [] op.n = "find"      -> [res |-> Pos(FindFrom(s, op.s, op.a)), st |-> s]
     [] op.n = "rfind"     -> [res |-> Pos(RFindFrom(s, op.s, op.a)), st |-> s]
     [] op.n = "find_first_of"     -> [res |-> Pos(FirstOf(s, op.s, op.a, TRUE)), st |-> s]
